@@ -330,10 +330,19 @@ def rule_iface(ctx):
             ctx.check("C16.iface", rec == ("c", want), w, label + ": reconnect flag",
                       "reconnect flag is %s, expected %s (reconnect iff the option is on and the error is not a sign-in conflict)" % (show(rec) if rec else None, want), "flag = %s" % want)
     # default of the option is on
-    fn = repo.method(IFACE, "YowInterfaceLayer", "onStreamError")
-    gp = [c for c in ast.walk(fn) if isinstance(c, ast.Call) and is_self_attr(c.func, "getProp")]
-    ok = len(gp) == 1 and len(gp[0].args) == 2 and isinstance(gp[0].args[1], ast.Constant) and gp[0].args[1].value is True
-    ctx.check("C16.iface", ok, w, "reconnect option default", "the reconnect option must default to on", "defaults to on")
+    # by abstract execution with the option never set: getProp answers with the default the caller passes
+    def unset_prop(itp, recv, a, k, env, d, e):
+        if a and a[0] == ("c", PROP):
+            return a[1] if len(a) > 1 else k.get("default", C_NONE)
+        return None
+
+    def mk_ack(itp):
+        o = Obj(se)
+        o.fields.update({"tag": ("c", "stream:error"), "data": ("dict", {"ack": C_NONE})})
+        return [("obj", o)]
+    r, it = run_handler(repo, IFACE, "YowInterfaceLayer", "onStreamError", mk_ack, fields={"reconnect": ("c", False), "entity_callbacks": ("dict", {})}, extra_hooks={"method:getProp": unset_prop})
+    rec = r["layer"][1].fields.get("reconnect")
+    ctx.check("C16.iface", rec == ("c", True) and not r["raised"], w, "reconnect option default", "the reconnect option must default to on (option unset: reconnect flag %s)" % (show(rec) if rec else None), "defaults to on")
     # connected clears the flag; disconnected with the flag reconnects once
     r, it = run_handler(repo, IFACE, "YowInterfaceLayer", "onConnected", [("obj", _event_obj(repo))], fields={"reconnect": ("c", True)})
     ctx.check("C16.iface", r["layer"][1].fields.get("reconnect") == ("c", False), where(IFACE, "YowInterfaceLayer.onConnected", None), "connected clears the flag", "the reconnect flag must be cleared when a connection is established", "cleared")
